@@ -253,7 +253,10 @@ Section Leaf.
   Variable leaf : template.    (* context.template *)
   Variable df : nat.
 
-  (** ExtendsNode.render_to_output in a context whose block stacks are empty. *)
+  (** ExtendsNode.render_to_output: the chain is built on block stacks of its
+      own ([defaultdict(list)], proposed fix 0001; before the fix: on the
+      context's stacks, which are empty unless another chain is being
+      rendered around this one), the base is rendered, StopRender. *)
   Definition chain (sf : nat) : res (str * bool) :=
     do (st, base) <- build_block_stacks ld [] leaf;;
     match sf with
